@@ -68,7 +68,7 @@ PROPS = {
                  "(loads(dumps(e)) is e), and fresh-interpreter restarts (only the pickles survive; new process, other "
                  "PYTHONHASHSEED) after which the history continues against the same reference",
                  design_ref="DESIGN.md 5 C18",
-                 phases=[{"profile": "C18", "share": 0.9}, {"profile": "C18fresh", "share": 0.1}]),
+                 phases=[{"profile": "C18", "share": 0.7}, {"profile": "C18approx", "share": 0.2}, {"profile": "C18fresh", "share": 0.1}]),
     "C26": {"engine": "values", "quick": 2000, "thorough": 60000, "limit_s": 90,
             "rule": "one case = one seeded history 'pin -> query -> query other expressions over the same variables' on "
                     "Solver / SolverComposite / SolverCacheless / SolverStrings over wide bit-vectors (1..130 bits), "
